@@ -205,6 +205,10 @@ pub fn open<'a>(
 ) -> Term<'a> {
     match &term_to_open.variant {
         Unifier(subterm, subterm_shift) => {
+            #[cfg(feature = "verif")]
+            if subterm.borrow().is_none() {
+                crate::verif_hooks::hole_copied();
+            }
             // We `clone` the borrowed `subterm` to avoid holding the dynamic borrow for too long.
             { subterm.borrow().clone() }.map_or_else(
                 || Term {
